@@ -196,6 +196,11 @@ func runIntro(file []byte, foreign bool) {
 				}
 			}
 		}
+		// from every page offset with n = 0: the one header at that offset
+		for _, r := range raw {
+			hs, err := parquet.PageHeadersAtOffset(bytes.NewReader(file), int64(r.Off), 0)
+			atpage = append(atpage, event{"off": r.Off, "n": 0, "err": errStr(err), "hdrs": hdrsLib(hs), "want": []event{hdrObsInd(r.Hdr)}})
+		}
 		// from every chunk offset with the value count of its first k pages: exactly k headers
 		atpartial := []event{}
 		for _, rg := range ind.RowGroups {
